@@ -40,7 +40,7 @@ Print Assumptions C20_later_entries_above.
 Example C20_nontrivial :
   let cfg := [mkSrv 0 1 1; mkSrv 0 2 2; mkSrv 0 3 3] in
   let P := mkP 1 false false false 100 4 (fun _ => cfg) in
-  let s := mkNS 3 0 None ∅ 0 0 [] 2 3 0 0 4 2 0 0 cfg 1 cfg 1 1 1 false [7] in
+  let s := mkNS 3 0 None ∅ 0 0 [] 2 3 0 0 4 2 0 0 cfg 1 cfg 1 1 1 false [7] (0, 0) in
   let ls := mkLS s (cm_new cfg 5) [(mkE 5 3 0 501, 11); (mkE 6 3 0 502, 12)] in
   match restore_user P ls [] 10 [901; 902] true with
   | (ls', code, res, tr, _) =>
